@@ -51,7 +51,7 @@ Qed.
        m0!(a) <-- e0(a, y);        head expansion renames nothing: the macro's y IS the rule's y *)
 Definition M_head : list mdef := [mkDef 0 [(0, true)] [IClause 3 [TV (VPar 0); TV (ml 0 "y")] []]].
 Definition r_head : rule := mkRule [HInv 0 [TV (cs "a")]] [IClause 0 [TV (cs "a"); TV (cs "y")] []].
-Lemma refuted_head_identifier_captured : forallb (wf_def (fun m => m)) M_head = true /\ wf_rule [0] r_head = true /\ not_hygienic M_head r_head.
+Lemma refuted_head_identifier_captured : forallb (wf_def (fun m => m) M_head) M_head = true /\ wf_rule [0] r_head = true /\ not_hygienic M_head r_head.
 Proof.
   repeat (split; [reflexivity|]). eexists _, _. split; [vm_compute; reflexivity|]. split; [vm_compute; reflexivity|].
   intros (phi & H). pose proof (image_ids _ _ _ H) as Hi. destruct H as (_ & Hinj & _).
@@ -82,7 +82,7 @@ Qed.
 Definition M_twice : list mdef := [mkDef 0 [(0, true)] [IClause 0 [TV (ml 0 "x"); TV (ml 0 "__x_")] []; IClause 1 [TV (VPar 0)] []]].
 Definition r_twice : rule := mkRule [HClause 1 [TV (cs "a")]] [IInv 0 [TV (cs "a")]].
 Lemma refuted_renamed_twice :
-  forallb wf_def_bound M_twice = true /\ forallb (wf_def_rank (fun m => m)) M_twice = true
+  forallb (wf_def_bound M_twice) M_twice = true /\ forallb (wf_def_rank (fun m => m)) M_twice = true
   /\ wf_rule [] r_twice = true /\ not_hygienic M_twice r_twice.
 Proof.
   repeat (split; [reflexivity|]). eexists _, _. split; [vm_compute; reflexivity|]. split; [vm_compute; reflexivity|].
@@ -107,6 +107,69 @@ Definition r_ex : rule :=
 Lemma example_wf : wf_macros (fun m => m) [2; 3] M_ex = true /\ wf_rule [2; 3] r_ex = true
   /\ exists r', expand_rule M_ex r_ex = OK r' /\ List.length (ids_rule r') = 36.
 Proof. split; [reflexivity|]. split; [reflexivity|]. eexists. split; vm_compute; reflexivity. Qed.
+
+(* ---------------------------------------------------------------- a local bound only through nested invocations
+       macro hop($p0: ident, $p1: ident) { e0($p0, $p1) }
+       macro two($p0: ident, $p1: ident) { hop!($p0, mid), hop!(mid, $p1) }
+       d0(a, mid) <-- two!(a, b), two!(b, mid);
+   no direct item of the body of `two` binds mid (the former hypothesis wf_def_bound_direct fails); it is bound through the
+   arguments of the nested invocations, the hypotheses of the theorem hold, and the expansion gives each invocation a
+   `mid` of its own, distinct from the call-site `mid` *)
+Definition M_two : list mdef :=
+  [ mkDef 0 [(0, true); (1, true)] [IClause 0 [TV (VPar 0); TV (VPar 1)] []];
+    mkDef 1 [(0, true); (1, true)] [IInv 0 [TV (VPar 0); TV (ml 1 "mid")]; IInv 0 [TV (ml 1 "mid"); TV (VPar 1)]] ].
+Definition r_two : rule :=
+  mkRule [HClause 3 [TV (cs "a"); TV (cs "mid")]] [IInv 1 [TV (cs "a"); TV (cs "b")]; IInv 1 [TV (cs "b"); TV (cs "mid")]].
+Lemma nested_binder_example :
+  wf_macros (fun m => m) [] M_two = true /\ forallb wf_def_bound_direct M_two = false /\ wf_rule [] r_two = true
+  /\ expand_rule M_two r_two =
+      OK (mkRule [HClause 3 [TV (cs "a"); TV (cs "mid")]]
+                 [IClause 0 [TV (cs "a"); TV (VId (mkId "__mid_" (OMac 1) 0))] []; IClause 0 [TV (VId (mkId "__mid_" (OMac 1) 0)); TV (cs "b")] [];
+                  IClause 0 [TV (cs "b"); TV (VId (mkId "__mid_1" (OMac 1) 0))] []; IClause 0 [TV (VId (mkId "__mid_1" (OMac 1) 0)); TV (cs "mid")] []]).
+Proof. repeat split; vm_compute; reflexivity. Qed.
+
+(* The ORDER matters: a variant of the expansion that renames the variables of a macro body BEFORE the nested invocations
+   of that body are expanded (the bound variables are then collected from items among which the nested invocations are still
+   opaque: bv_item (IInv ..) = []) is not hygienic on this very table — `mid` keeps its spelling, the two invocations share it
+   and the call-site `mid` captures it.  [expand_item_early] differs from MacroModel.expand_item only in that order. *)
+Fixpoint expand_item_early (depth : nat) (M : list mdef) (it : item) (g : gensym) : res (list item * gensym) :=
+  match depth with
+  | O => Err ERecursive
+  | S d =>
+      match it with
+      | IInv m acts =>
+          match instantiate M m acts (fun b => b) with
+          | Err e => Err e
+          | OK b => let '(b', g1) := rename_originated m b g in expand_list (expand_item_early d M) b' g1
+          end
+      | IDisj alts =>
+          match expand_alts (expand_item_early d M) alts g with
+          | Err e => Err e
+          | OK (alts', g') => OK ([IDisj alts'], g')
+          end
+      | _ => OK ([it], g)
+      end
+  end.
+Definition expand_rule_early (M : list mdef) (r : rule) : res rule :=
+  match expand_list (expand_item_early DEPTH M) (rbody r) [] with
+  | Err e => Err e
+  | OK (b, _) =>
+      match expand_hlist (expand_head DEPTH M) (rheads r) tt with
+      | Err e => Err e
+      | OK (hs, _) => OK {| rheads := hs; rbody := b |}
+      end
+  end.
+Lemma refuted_rename_before_nested_expansion :
+  wf_macros (fun m => m) [] M_two = true /\ wf_rule [] r_two = true
+  /\ exists r' h, expand_rule_early M_two r_two = OK r' /\ hexpand_rule M_two r_two = OK h /\ ~ exists phi, hygienic_image r' h phi.
+Proof.
+  repeat (split; [reflexivity|]). eexists _, _. split; [vm_compute; reflexivity|]. split; [vm_compute; reflexivity|].
+  intros (phi & H). pose proof (image_ids _ _ _ H) as Hi. destruct H as (_ & Hinj & _).
+  apply (f_equal (map iname)) in Hi. vm_compute in Hi. injection Hi. intros.
+  assert (E : iname (mkId "mid" OCall 0) = iname (mkId "mid" (OMac 1) 1) /\ isc (mkId "mid" OCall 0) = isc (mkId "mid" (OMac 1) 1)).
+  { apply Hinj; [vm_compute; auto 20|vm_compute; auto 20|]. simpl. congruence. }
+  destruct E as [_ E]. discriminate.
+Qed.
 
 (* a recursive table with well-formed invocations: mutual recursion through a disjunction, reached through a third macro *)
 Definition M_rec : list mdef :=
